@@ -43,6 +43,7 @@ acos formulation (condition 1/sin za, 1/sin^2 za for the azimuth; see seq_los). 
 relational facts are checked up to the forward rounding bound of the documented haversine / chord
 formula in float64 (geodesy_model.arc_bound / chord_bound); "zero for coincident points" is exact.
 """
+import os
 import traceback
 
 import numpy as np
@@ -364,6 +365,8 @@ def install(rec):
         _S["ells"] = {name: tuple(em[name]) for name in em.models}
         _S["R"] = float(constants.earth_radius)
         for name, cond in POSTS.items():
+            if os.environ.get("VT_SELFTEST_NO_POST"):   # self-test only: relational driver on its own
+                break
             orig = getattr(g, name)
             _S["orig"][name] = orig
             setattr(g, name, icontract.ensure(cond, error=_breach)(orig))
